@@ -133,15 +133,19 @@ def main(rec):
         light = {x[0] for i, x in enumerate(libs) if not (x[0].startswith("gmix") or i % 8 == common.seed() % 8)}
     # user code in the structural splicer blocks of every emitter (file tops, module parts, declarations / definitions):
     # it is code, so none of the five options may add, drop or move it
+    # ... including lines whose first / last character is one the layout step gives a meaning to in Shroud's own templates
+    def UFUN(nm):
+        return ["static int %s(int n)" % nm, "{", "++n;", "--n;", "@n = n + 0;" if False else "n = n +", "1;", "-n;", "+n;",
+                "\tn = n ? n : -n;", "return n +", "n;", "}"]
     USER_CODE = {
         "f": {"file_top": ["#define VF_USER_FTOP 1"], "module_use": ["use iso_c_binding, only : C_SHORT"],
-              "module_top": ["integer, parameter :: vf_user_module_top = 1"],
+              "module_top": ["integer, parameter :: vf_user_module_top = 1", "integer, parameter :: vf_user_p2 = 3 &", "- 1 +&", "+ 2"],
               "additional_functions": ["subroutine vf_user_sub()", "end subroutine vf_user_sub"]},
         "c": {"C_declarations": ["#define VF_USER_CDECL 1"], "CXX_declarations": ["#define VF_USER_CXXDECL 1"],
-              "C_definitions": ["int vf_user_cdef = 1;"], "CXX_definitions": ["int vf_user_cxxdef = 1;"]},
+              "C_definitions": ["int vf_user_cdef = 1;"] + UFUN("vf_user_cbump"), "CXX_definitions": ["int vf_user_cxxdef = 1;"] + UFUN("vf_user_cxxbump")},
         "py": {"include": ["#define VF_USER_PYINC 1"], "C_definition": ["static int vf_user_pydef = 1;"],
-               "additional_functions": ["static int vf_user_pyfun(void) { return 1; }"]},
-        "lua": {"include": ["#define VF_USER_LUAINC 1"], "C_definition": ["static int vf_user_luadef = 1;"]},
+               "additional_functions": ["static int vf_user_pyfun(void) { return 1; }"] + UFUN("vf_user_pybump")},
+        "lua": {"include": ["#define VF_USER_LUAINC 1"], "C_definition": ["static int vf_user_luadef = 1;"] + UFUN("vf_user_luabump")},
     }
     for li, (name, d, meta) in enumerate(libs):
         d = normalise_base(d)
